@@ -150,13 +150,15 @@ Proof.
   change (negb (114 =? 114)) with false in B2. cbn [orb] in B2. destruct tl; [discriminate|exact B2].
 Qed.
 
-Lemma table_names_ok : forallb (fun e => name_okb (T (fst (snd e)))) mnemonics = true.
+(** every mnemonic of the table is such a name, except `tail_call` (the underscore ends an identifier for the parser) *)
+Lemma table_names_ok : forallb (fun e => name_okb (T (fst (snd e))) || String.eqb (fst (snd e)) "tail_call") mnemonics = true.
 Proof. vm_compute. reflexivity. Qed.
 
-Lemma lookup_name_ok o name sh : lookup o mnemonics = Some (name, sh) -> name_ok (T name).
+Lemma lookup_name_ok o name sh : lookup o mnemonics = Some (name, sh) -> name <> "tail_call"%string -> name_ok (T name).
 Proof.
-  intros L. apply DisasmProofs.lookup_in in L. apply name_okb_ok.
-  exact (proj1 (forallb_forall _ _) table_names_ok _ L).
+  intros L N. apply DisasmProofs.lookup_in in L. apply name_okb_ok.
+  pose proof (proj1 (forallb_forall _ _) table_names_ok _ L) as H. cbn [fst snd] in H.
+  apply orb_true_iff in H as [H|H]; [exact H|]. apply String.eqb_eq in H. contradiction.
 Qed.
 
 Lemma name_ok_digits n ds : name_ok n -> Forall (fun d => 0 <= d < 10) ds -> name_ok (n ++ map code ds).
@@ -171,12 +173,12 @@ Qed.
 
 Definition endian_ok (sh : shape) (i : insn) : Prop := match sh with ShEndian => 0 <= imm i | _ => True end.
 
-Lemma line_of_ok o name sh i x : lookup o mnemonics = Some (name, sh) \/ name = "callx"%string ->
+Lemma line_of_ok o name sh i x : (lookup o mnemonics = Some (name, sh) /\ name <> "tail_call"%string) \/ name = "callx"%string ->
   wf_insn i -> endian_ok sh i -> line_ok (line_of name sh i x).
 Proof.
   intros Hn (Ho & Hd & Hs & Hf & Hi) He. unfold line_ok, line_of. cbn [fst snd].
   assert (N : name_ok (T name)).
-  { destruct Hn as [L| ->]; [eapply lookup_name_ok; exact L|apply name_okb_ok; vm_compute; reflexivity]. }
+  { destruct Hn as [[L NT]| ->]; [eapply lookup_name_ok; eassumption|apply name_okb_ok; vm_compute; reflexivity]. }
   assert (M32 : 0 <= imm i mod 2 ^ 32 < 2 ^ 64) by (pose proof (Z.mod_pos_bound (imm i) (2 ^ 32) ltac:(fold_pows; lia)); fold_pows; lia).
   assert (M64 : 0 <= x mod 2 ^ 64 < 2 ^ 64) by (apply Z.mod_pos_bound; fold_pows; lia).
   split.
